@@ -339,6 +339,32 @@ func TestVerifC05(t *testing.T) {
 		m[r.below(len(m))] ^= 1 << uint(r.below(8))
 		verifDecodeCase(o, "bitflip", m)
 	}
+	// long payloads (around 2^16 and beyond): Go-side monitors only — the in-Coq comparison is limited to inputs <= 8 KiB
+	big := []int{65534, 65535, 65536, 65537, 70001, 131072}
+	if verifThorough() {
+		big = append(big, 1<<20, 1<<20+1)
+	}
+	for i, plen := range big {
+		v, secs, _ := verifRandVAA(r, i%3, plen, true)
+		if secs < 0 || secs >= 1<<32 {
+			v.Timestamp = time.Unix(int64(uint32(secs)), 0)
+		}
+		enc, _ := v.Marshal()
+		mon := []string{}
+		d, err := Unmarshal(enc)
+		if err != nil {
+			mon = append(mon, "valid encoding rejected: "+err.Error())
+		} else {
+			if !bytes.Equal(d.Payload, v.Payload) || !d.Timestamp.Equal(v.Timestamp) || d.Sequence != v.Sequence || len(d.Signatures) != len(v.Signatures) {
+				mon = append(mon, fmt.Sprintf("decode(encode(v)) != v (payload %d bytes, decoded %d bytes, %d signatures)", len(v.Payload), len(d.Payload), len(v.Signatures)))
+			}
+			if d.SigningMsg() != v.SigningMsg() {
+				mon = append(mon, "digest changed by the round trip")
+			}
+		}
+		o.emit(map[string]interface{}{"k": "rtbig", "plen": plen, "nsig": i % 3, "in": hex.EncodeToString(enc), "mon": mon})
+		verifDecodeCase(o, "valid-long", enc)
+	}
 	for i := 0; i < nrand; i++ {
 		var b []byte
 		switch r.below(4) {
